@@ -1,4 +1,533 @@
-//! C16 — a failed flush is reported and loses nothing (placeholder, see below)
-pub fn child_main(_req: &str) -> i32 {
-    2
+//! C16 — a failed flush is reported and loses nothing (fault enumeration with RLIMIT_FSIZE).
+use super::*;
+use crate::childproc::{digest_model, verify_dir, DirMap, VerifyReq};
+use crate::dbx::open_map;
+use serde::{Deserialize, Serialize};
+use std::collections::BTreeMap;
+
+pub struct C16;
+
+#[derive(Serialize, Deserialize, Clone, Debug, PartialEq)]
+pub struct C16Case {
+    /// 0: big values (value file largest), 1: many long keys (key file largest), 2: huge table (table file largest)
+    pub shape: u8,
+    /// 0 flush, 1 sync_data, 2 sync_all
+    pub call: u8,
+    /// RLIMIT_FSIZE in force during the call
+    pub limit: u64,
+    pub kt: Kt,
+}
+
+#[derive(Serialize, Deserialize, Clone, Debug)]
+pub struct ChildReq {
+    pub dir: String,
+    pub case: C16Case,
+    /// dry run: no limit, report file sizes
+    pub dry: bool,
+}
+
+#[derive(Serialize, Deserialize, Clone, Debug, Default)]
+pub struct ChildOut {
+    pub failure: Option<String>,
+    pub call_ok: bool,
+    pub reads_err_under_limit: u64,
+    pub sizes: [u64; 3],
+    pub recovered_flush_ok: bool,
+}
+
+fn params_for(shape: u8) -> Params {
+    Params {
+        // non-evicting buffers: the updates stay in memory until flush
+        val: BufP::PerMille(1000),
+        key: BufP::PerMille(1000),
+        htx: BufP::PerMille(1000),
+        buckets: match shape {
+            2 => Buckets::BucketsSize(65536),
+            1 => Buckets::BucketsSize(1024),
+            _ => Buckets::BucketsSize(16),
+        },
+    }
+}
+
+fn key_bytes(kt: Kt, shape: u8, i: u64) -> Vec<u8> {
+    match kt {
+        Kt::U64 | Kt::I64 => (i.wrapping_mul(0x9E3779B97F4A7C15)).to_le_bytes().to_vec(),
+        Kt::Vu64 => crate::decoder::vu64_encode(i.wrapping_mul(0x9E3779B97F4A7C15) >> 3),
+        _ => {
+            let len = if shape == 1 { 900 + (i % 100) as usize } else { 8 + (i % 9) as usize };
+            let raw = pattern_bytes(len, i as u32);
+            if kt == Kt::String {
+                raw.iter().map(|b| b'!' + (b % 90)).collect()
+            } else {
+                raw
+            }
+        }
+    }
+}
+
+/// the workload of a shape: (phase A updates, phase B updates); an update is (key, Some(value)|None)
+fn workload(kt: Kt, shape: u8) -> (Vec<(Vec<u8>, Option<Vec<u8>>)>, Vec<(Vec<u8>, Option<Vec<u8>>)>) {
+    let mut a = Vec::new();
+    let mut b = Vec::new();
+    match shape {
+        0 => {
+            for i in 0..2u64 {
+                a.push((key_bytes(kt, shape, i), Some(pattern_bytes(150_000 + i as usize * 1111, i as u32))));
+            }
+            for i in 2..5u64 {
+                b.push((key_bytes(kt, shape, i), Some(pattern_bytes(200_000 + i as usize * 777, i as u32))));
+            }
+            b.push((key_bytes(kt, shape, 0), Some(pattern_bytes(400_000, 9))));
+            b.push((key_bytes(kt, shape, 1), None));
+            b.push((key_bytes(kt, shape, 7), Some(pattern_bytes(100, 9))));
+        }
+        1 => {
+            let n = if matches!(kt, Kt::Bytes | Kt::String) { 600 } else { 20000 };
+            for i in 0..n / 3 {
+                a.push((key_bytes(kt, shape, i), Some(pattern_bytes(5, i as u32))));
+            }
+            for i in n / 3..n {
+                b.push((key_bytes(kt, shape, i), Some(pattern_bytes(7, i as u32))));
+            }
+            for i in 0..n / 10 {
+                b.push((key_bytes(kt, shape, i * 3), None));
+            }
+        }
+        _ => {
+            for i in 0..10u64 {
+                a.push((key_bytes(kt, shape, i), Some(pattern_bytes(30, i as u32))));
+            }
+            for i in 10..60u64 {
+                b.push((key_bytes(kt, shape, i), Some(pattern_bytes(40, i as u32))));
+            }
+            b.push((key_bytes(kt, shape, 3), None));
+        }
+    }
+    (a, b)
+}
+
+fn model_of(kt: Kt, shape: u8) -> (Vec<Vec<u8>>, BTreeMap<Vec<u8>, Vec<u8>>) {
+    let (a, b) = workload(kt, shape);
+    let mut m = BTreeMap::new();
+    let mut keys = Vec::new();
+    for (k, v) in a.into_iter().chain(b.into_iter()) {
+        if !keys.contains(&k) && keys.len() < 80 {
+            keys.push(k.clone());
+        }
+        match v {
+            Some(v) => {
+                m.insert(k, v);
+            }
+            None => {
+                m.remove(&k);
+            }
+        }
+    }
+    keys.push(b"never-inserted-key".to_vec());
+    (keys, m)
+}
+
+fn set_limit(l: Option<u64>) {
+    let mut rl: libc::rlimit = unsafe { std::mem::zeroed() };
+    unsafe {
+        libc::getrlimit(libc::RLIMIT_FSIZE, &mut rl);
+    }
+    rl.rlim_cur = match l {
+        Some(x) => x as libc::rlim_t,
+        None => rl.rlim_max,
+    };
+    unsafe {
+        libc::setrlimit(libc::RLIMIT_FSIZE, &rl);
+    }
+}
+
+fn snapshot_equals_model(dir: &std::path::Path, kt: Kt, shape: u8, tag: &str) -> Result<(), String> {
+    let snap = dir.join(format!("snap-{tag}"));
+    let _ = std::fs::remove_dir_all(&snap);
+    std::fs::create_dir_all(&snap).map_err(|e| format!("mkdir: {e}"))?;
+    let files = crate::exec::read_files(dir, "f").map_err(|e| format!("read files: {e}"))?;
+    let names = crate::exec::file_names("f");
+    for i in 0..3 {
+        std::fs::write(snap.join(&names[i]), &files[i]).map_err(|e| format!("write snap: {e}"))?;
+    }
+    let (keys, model) = model_of(kt, shape);
+    let d = crate::decoder::decode(kt, &files[0], &files[1], &files[2]);
+    if let Some(c) = d.header.first().or(d.structure.first()) {
+        return Err(format!("decoder: {c}"));
+    }
+    if d.contents() != model {
+        return Err(format!(
+            "decoded contents ({} entries) differ from the model ({} entries)",
+            d.contents().len(),
+            model.len()
+        ));
+    }
+    let req = VerifyReq {
+        dir: snap.to_string_lossy().to_string(),
+        maps: vec![DirMap {
+            name: "f".into(),
+            kt,
+            params: params_for(shape),
+            keys: keys.iter().map(|k| hex(k)).collect(),
+        }],
+    };
+    let got = verify_dir(&req)?;
+    let _ = std::fs::remove_dir_all(&snap);
+    if got.maps[0] != digest_model(&keys, &model) {
+        return Err("the copy opened with the crate shows other contents than the model".into());
+    }
+    Ok(())
+}
+
+/// child process: `vp c16-child <req.json>`; prints one JSON line (ChildOut) and _exits without
+/// running destructors (as if killed right after the last call)
+pub fn child_main(req_file: &str) -> i32 {
+    crate::runner::install_panic_hook();
+    crate::runner::quiet_panics(true);
+    let req: ChildReq = serde_json::from_str(&std::fs::read_to_string(req_file).expect("req")).expect("req json");
+    unsafe {
+        libc::signal(libc::SIGXFSZ, libc::SIG_IGN);
+    }
+    let mut out = ChildOut::default();
+    let dir = std::path::PathBuf::from(&req.dir);
+    let c = req.case.clone();
+    let res = std::panic::catch_unwind(std::panic::AssertUnwindSafe(|| -> Result<(), String> {
+        let _ = std::fs::create_dir_all(&dir);
+        let db = abyssiniandb::open_file(&dir).map_err(|e| format!("open_file: {e}"))?;
+        let mut m = open_map(&db, "f", c.kt, &params_for(c.shape)).map_err(|e| format!("open map: {e}"))?;
+        let (a, b) = workload(c.kt, c.shape);
+        let apply = |m: &mut Box<dyn crate::dbx::MapH>, ups: &[(Vec<u8>, Option<Vec<u8>>)]| -> Result<(), String> {
+            for (k, v) in ups {
+                match v {
+                    Some(v) => m.put(k, v).map_err(|e| format!("put with the limit lifted returned Err: {e}"))?,
+                    None => {
+                        m.delete(k).map_err(|e| format!("delete with the limit lifted returned Err: {e}"))?;
+                    }
+                }
+            }
+            Ok(())
+        };
+        apply(&mut m, &a)?;
+        m.flush().map_err(|e| format!("baseline flush returned Err: {e}"))?;
+        apply(&mut m, &b)?;
+        let (keys, model) = model_of(c.kt, c.shape);
+        if !req.dry {
+            set_limit(Some(c.limit));
+        }
+        let r = match c.call {
+            0 => m.flush(),
+            1 => m.sync_data(),
+            _ => m.sync_all(),
+        };
+        out.call_ok = r.is_ok();
+        // (i) reads under the limit: Err is acceptable, a wrong value is not
+        for k in &keys {
+            match m.get(k) {
+                Ok(v) => {
+                    if v.as_ref() != model.get(k) {
+                        return Err(format!(
+                            "while the limit is in force get({}) returned a wrong value (len {:?}, expected {:?})",
+                            hex(&k[..k.len().min(12)]),
+                            v.map(|x| x.len()),
+                            model.get(k).map(|x| x.len())
+                        ));
+                    }
+                }
+                Err(_) => out.reads_err_under_limit += 1,
+            }
+        }
+        if out.call_ok {
+            // nothing may have been swallowed: what is on disk now is the model state
+            set_limit(None);
+            snapshot_equals_model(&dir, c.kt, c.shape, "ok").map_err(|e| {
+                format!("the call returned Ok under RLIMIT_FSIZE={} but the files on disk do not hold the current state: {e}", c.limit)
+            })?;
+        }
+        // (ii) limit lifted: every read equals the model
+        set_limit(None);
+        for k in &keys {
+            let v = m.get(k).map_err(|e| format!("after lifting the limit get returned Err: {e}"))?;
+            if v.as_ref() != model.get(k) {
+                return Err(format!(
+                    "after the failed flush (limit lifted) get({}) differs from the model (len {:?}, expected {:?})",
+                    hex(&k[..k.len().min(12)]),
+                    v.map(|x| x.len()),
+                    model.get(k).map(|x| x.len())
+                ));
+            }
+        }
+        let l = m.len().map_err(|e| format!("len: {e}"))?;
+        if l != model.len() as u64 {
+            return Err(format!("after the failed flush len() = {l}, model has {}", model.len()));
+        }
+        let it = m.iterate(0, None, 0);
+        let mut seen: BTreeMap<Vec<u8>, Vec<u8>> = BTreeMap::new();
+        for (k, v) in it.items {
+            seen.insert(k.unwrap(), v.unwrap());
+        }
+        if seen != model {
+            return Err("after the failed flush a full iteration differs from the model".into());
+        }
+        // (iii) the next flush succeeds and makes everything durable
+        let r2 = match c.call {
+            0 => m.flush(),
+            1 => m.sync_data(),
+            _ => m.sync_all(),
+        };
+        out.recovered_flush_ok = r2.is_ok();
+        if let Err(e) = r2 {
+            return Err(format!("with the limit lifted the next flush/sync still returns Err: {e}"));
+        }
+        snapshot_equals_model(&dir, c.kt, c.shape, "rec").map_err(|e| {
+            format!("after the recovered flush the files on disk do not hold the current state: {e}")
+        })?;
+        let f = crate::exec::read_files(&dir, "f").map_err(|e| format!("read: {e}"))?;
+        out.sizes = [f[0].len() as u64, f[1].len() as u64, f[2].len() as u64];
+        std::mem::forget(m);
+        std::mem::forget(db);
+        Ok(())
+    }));
+    match res {
+        Ok(Ok(())) => {}
+        Ok(Err(e)) => out.failure = Some(e),
+        Err(p) => out.failure = Some(format!("panicked: {}", crate::runner::panic_text(&p))),
+    }
+    println!("{}", serde_json::to_string(&out).unwrap());
+    use std::io::Write;
+    let _ = std::io::stdout().flush();
+    // no destructors: the directory is left behind as by SIGKILL
+    unsafe { libc::_exit(0) }
+}
+
+const CHUNK: u64 = 131072;
+
+/// candidate thresholds from the file sizes of a shape: every chunk boundary +-1, the header
+/// region, the file ends
+pub fn thresholds(sizes: [u64; 3]) -> Vec<u64> {
+    let mut v: Vec<u64> = vec![0, 1, 127, 128, 191, 192, 193, 4095, 4096];
+    let max = *sizes.iter().max().unwrap();
+    let mut b = CHUNK;
+    while b <= max + CHUNK {
+        for d in [-1i64, 0, 1, 1000] {
+            v.push((b as i64 + d) as u64);
+        }
+        b += CHUNK;
+    }
+    for s in sizes {
+        for d in [-1i64, 0, 1] {
+            if s as i64 + d >= 0 {
+                v.push((s as i64 + d) as u64);
+            }
+        }
+        v.push(s / 2);
+    }
+    v.push(max + CHUNK * 4);
+    v.sort();
+    v.dedup();
+    v
+}
+
+fn run_child(c: &C16Case, dry: bool, w: &WCtx) -> Result<(ChildOut, std::path::PathBuf), Failure> {
+    let dir = w.fresh_dir();
+    let req = ChildReq {
+        dir: dir.join("db").to_string_lossy().to_string(),
+        case: c.clone(),
+        dry,
+    };
+    let out: Result<ChildOut, String> =
+        crate::childproc::run_child_json(&w.exe, "c16-child", &serde_json::to_string(&req).unwrap(), &w.scratch, 120);
+    match out {
+        Ok(o) => Ok((o, dir)),
+        Err(e) => {
+            w.cleanup(&dir);
+            if e.contains("hang") {
+                Err(Failure::new("hang", None, format!("fault-injection child: {e}")))
+            } else {
+                Err(Failure::new("abort", None, format!("fault-injection child: {e}")))
+            }
+        }
+    }
+}
+
+thread_local! {
+    static SIZES: std::cell::RefCell<BTreeMap<(u8, u8), [u64; 3]>> = std::cell::RefCell::new(BTreeMap::new());
+}
+
+fn kt_index(kt: Kt) -> u8 {
+    Kt::ALL.iter().position(|k| *k == kt).unwrap() as u8
+}
+
+fn sizes_of(shape: u8, kt: Kt, w: &WCtx) -> Result<[u64; 3], Failure> {
+    if let Some(s) = SIZES.with(|s| s.borrow().get(&(shape, kt_index(kt))).copied()) {
+        return Ok(s);
+    }
+    let c = C16Case {
+        shape,
+        call: 0,
+        limit: 0,
+        kt,
+    };
+    let (o, dir) = run_child(&c, true, w)?;
+    w.cleanup(&dir);
+    if let Some(f) = o.failure {
+        return Err(Failure::new("error", None, format!("dry run of shape {shape} without any limit failed: {f}")));
+    }
+    SIZES.with(|s| s.borrow_mut().insert((shape, kt_index(kt)), o.sizes));
+    Ok(o.sizes)
+}
+
+fn run_c16(c: &C16Case, w: &WCtx) -> Result<Report, Failure> {
+    let mut rep = Report::default();
+    let (o, dir) = run_child(c, false, w)?;
+    let fin = (|| {
+        if let Some(f) = &o.failure {
+            return Err(Failure::new("fault", None, format!("[shape {} call {} RLIMIT_FSIZE={}] {f}", c.shape, ["flush", "sync_data", "sync_all"][c.call as usize % 3], c.limit)));
+        }
+        // the directory left behind by the process that exited without running destructors
+        let (keys, model) = model_of(c.kt, c.shape);
+        let req = VerifyReq {
+            dir: dir.join("db").to_string_lossy().to_string(),
+            maps: vec![DirMap {
+                name: "f".into(),
+                kt: c.kt,
+                params: params_for(c.shape),
+                keys: keys.iter().map(|k| hex(k)).collect(),
+            }],
+        };
+        crate::runner::quiet_panics(true);
+        let got = std::panic::catch_unwind(std::panic::AssertUnwindSafe(|| verify_dir(&req)));
+        crate::runner::quiet_panics(false);
+        match got {
+            Ok(Ok(g)) => {
+                if g.maps[0] != digest_model(&keys, &model) {
+                    return Err(Failure::new(
+                        "fault",
+                        None,
+                        format!("[shape {} RLIMIT_FSIZE={}] the directory left behind after the recovered flush shows other contents than the model", c.shape, c.limit),
+                    ));
+                }
+            }
+            Ok(Err(e)) => return Err(Failure::new("fault", None, format!("directory left behind cannot be opened: {e}"))),
+            Err(p) => {
+                return Err(Failure::new(
+                    "fault",
+                    None,
+                    format!("directory left behind cannot be opened: panic: {}", crate::runner::panic_text(&p)),
+                ))
+            }
+        }
+        Ok(())
+    })();
+    w.cleanup(&dir);
+    fin?;
+    if o.call_ok {
+        rep.bump("call_ok_under_limit");
+    } else {
+        rep.bump("call_err_under_limit");
+        // which file was the first to be refused: flush order is val, key, htx
+        let first = if o.sizes[2] > c.limit {
+            "first_refused_val"
+        } else if o.sizes[1] > c.limit {
+            "first_refused_key"
+        } else {
+            "first_refused_htx"
+        };
+        rep.bump(first);
+    }
+    if o.reads_err_under_limit > 0 {
+        rep.bump("reads_err_under_limit");
+    }
+    Ok(rep)
+}
+
+fn n_thresholds(tier: Tier) -> u64 {
+    tier.pick(40, 140)
+}
+
+fn case_of(tier: Tier, index: u64, w: &WCtx) -> Result<C16Case, Failure> {
+    let nt = n_thresholds(tier);
+    let per_shape = nt * 3;
+    let shape = ((index / per_shape) % 3) as u8;
+    let call = ((index % per_shape) / nt) as u8;
+    let j = index % nt;
+    // key types rotate with the threshold index; the byte-key types make the key file large
+    let kt = if shape == 1 {
+        [Kt::Bytes, Kt::String][(j % 2) as usize]
+    } else {
+        Kt::ALL[(j % 5) as usize]
+    };
+    let sizes = sizes_of(shape, kt, w)?;
+    let ts = thresholds(sizes);
+    // spread the index over the candidate list
+    let t = ts[((j as usize) * ts.len() / nt as usize).min(ts.len() - 1)];
+    Ok(C16Case {
+        shape,
+        call,
+        limit: t,
+        kt,
+    })
+}
+
+impl Prop for C16 {
+    fn id(&self) -> &'static str {
+        "C16"
+    }
+    fn level(&self) -> &'static str {
+        "fault_enumeration"
+    }
+    fn rule(&self) -> String {
+        "fault enumeration in a child process (SIGXFSZ ignored): three workload shapes so that each file is in turn the largest (values of 150-400 KB; 600 keys of ~1 KB; 65536-bucket table with few entries), a flushed baseline followed by buffered updates made with the limit lifted; then RLIMIT_FSIZE = T and flush / sync_data / sync_all; T ranges over the header offsets, every 128 KiB buffer-chunk boundary (-1, 0, +1, +1000) up to beyond the largest file, each file's end (-1, 0, +1) and half of it (quick: 40 thresholds per shape and call spread over that list, thorough: 140). Oracle: Ok under the limit => the files on disk hold the model state (independent decode + copy opened with the crate); Err => (i) reads while the limit is in force may return Err but never a wrong value, (ii) after lifting the limit get of every key, len and a full iteration equal the model, (iii) the next flush/sync returns Ok and the files on disk hold the model state, also in the directory left behind when the process exits without running destructors (as by SIGKILL). evaluations = (shape, call, T, key type) cases. Non-trivial: T at which the call returned Err; distinct by (shape, call, T, key type)."
+            .to_string()
+    }
+    fn assumptions(&self) -> Vec<String> {
+        vec![
+            "RLIMIT_FSIZE with SIGXFSZ ignored models a write refusal (EFBIG after a partial write); ENOSPC/EIO are assumed to travel the same error path".into(),
+            "non-evicting buffers (PerMille(1000)) so that a lookup under the limit rarely needs a write-back".into(),
+        ]
+    }
+    fn n_cases(&self, tier: Tier) -> u64 {
+        n_thresholds(tier) * 3 * 3
+    }
+    fn timeout_s(&self, _tier: Tier) -> u64 {
+        150
+    }
+    fn run_case(&self, tier: Tier, _seed: u64, index: u64, w: &WCtx) -> CaseOut {
+        let mut out = CaseOut {
+            index,
+            evals: 1,
+            profile: w.profile.clone(),
+            ..Default::default()
+        };
+        let c = match case_of(tier, index, w) {
+            Ok(c) => c,
+            Err(f) => {
+                out.failure = Some(f);
+                return out;
+            }
+        };
+        match run_c16(&c, w) {
+            Ok(rep) => {
+                if rep.has("call_err_under_limit") {
+                    out.nontrivial.push(digest_of(&c));
+                }
+                out.labels = rep.labels;
+                if index % 53 == 9 {
+                    out.sample = Some(serde_json::to_value(&c).unwrap());
+                }
+            }
+            Err(f) => {
+                out.failure = Some(f);
+                out.case = Some(serde_json::to_value(&c).unwrap());
+            }
+        }
+        out
+    }
+    fn gen_case(&self, _tier: Tier, _seed: u64, _index: u64) -> Value {
+        json!(null)
+    }
+    fn replay(&self, case: &Value, w: &WCtx) -> Result<Report, Failure> {
+        let c: C16Case = serde_json::from_value(case.clone())
+            .map_err(|e| Failure::new("infra", None, format!("bad replay file: {e}")))?;
+        run_c16(&c, w)
+    }
 }
